@@ -64,7 +64,19 @@ def make_case(prop, seed, i, tier):
         first = ["backward", rng.random() < 0.5, rng.random() < 0.8]
         if rng.random() < 0.6:
             spec["sim"]["absence"] = sorted(set(spec["sim"]["absence"]) | {rng.choice([1, 2, 3]), rng.choice([200, 1000, 1001])})
-    return dict(prop=prop, i=i, kind=kind, spec=spec, subproject_task=sub, eseed=rng.randrange(10 ** 9), first=first)
+    more_first = []
+    r_ = rng.random()
+    if r_ < 0.12 and first[0] == "sim":
+        # the logs come from two calls with DIFFERENT project absence lists: pause + resume, or run + appended run
+        other = sorted(rng.sample(range(0, 40), rng.randint(0, 4)))
+        if rng.random() < 0.5:
+            first = ["pause", rng.choice([2, 3, 5, 8])]
+            more_first.append(["resume_abs", other])
+        else:
+            more_first.append(["sim_keeplog_abs", other])
+    if rng.random() < 0.15:
+        more_first.append(rng.choice([["saveload"], ["reload"]]))    # the edited project was read from a file
+    return dict(prop=prop, i=i, kind=kind, spec=spec, subproject_task=sub, eseed=rng.randrange(10 ** 9), first=first, more_first=more_first)
 
 
 def log_lengths(p):
@@ -87,6 +99,10 @@ def run_case(case):
     tr = I.Tracer([])
     err = h.do(case.get("first") or ["sim"])
     res.count("C18.first." + (case.get("first") or ["sim"])[0])
+    for op_ in case.get("more_first") or []:
+        if err is None:
+            err = h.do(op_)
+            res.count("C18.first_then." + op_[0])
     res["source"] = case["kind"]
     if err is not None:
         res["aborted"] = err
